@@ -33,7 +33,10 @@ func (node *tagForNode) Execute(ctx *ExecutionContext, writer TemplateWriter) (f
 
 	// Is it a loop in a loop?
 	if parentloop != nil {
-		loopInfo.Parentloop = parentloop.(*tagForLoopInformation)
+		// "forloop" could have been re-bound to anything by the template (e.g. using set)
+		if parentInfo, isLoopInfo := parentloop.(*tagForLoopInformation); isLoopInfo {
+			loopInfo.Parentloop = parentInfo
+		}
 	}
 
 	// Register loopInfo in public context
